@@ -17,8 +17,8 @@ from vf.progcheck import materialise
 LEVEL = "exploration"
 RULE = (
     "one case per (history, prefix, probe): histories of 1-12 assemblies in one process (valid programs, programs failing in the scanner, "
-    "parser, expansion, label pass and emission, .map programs, other ROM types, programs re-using the probes' macro/symbol/label/table/"
-    "file names with other contents, file-API and in-process CLI runs) followed after every prefix by 24 probes (LoROM, HiROM, low2, .map, "
+    "parser, expansion, label pass and emission, .map programs, other ROM types, programs whose data ends with the last byte of a mapped region, programs that abandon an expression half-way, programs re-using the probes' macro/symbol/label/table/"
+    "file names with other contents, file-API and in-process CLI runs) followed after every prefix by 28 probes (LoROM, HiROM, low2, .map, "
     "macros, tables, .incbin, -D, failing probes); each probe result (blocks, labels, root symbols, error kind and text with object "
     "addresses normalised) is compared with the same probe assembled alone in a fresh interpreter, and probes are repeated; batches of probes are also assembled on Program objects that were all constructed before the first of them ran; distinct by "
     "hash of (history prefix, probe); non-trivial = every comparison against a fresh-process baseline"
@@ -70,6 +70,10 @@ def fixed_probes() -> list[dict]:
         {"name": "fail_macro", "src": "*=0x008000\nshared_m(1)\n", "rom": None},
         {"name": "fail_table", "src": "*=0x008000\n.text 'ABC'\n", "rom": None},
         {"name": "fail_unmapped", "src": "*=0x008000\n.db 1\n*=0x708000\n.db 2\n", "rom": None},
+        {"name": "fail_unmapped_d0", "src": "*=0x008000\n.db 1\n*=0xD08000\nstart:\n.db 2\n.dl start\n", "rom": None},
+        {"name": "fail_unmapped_hirom_low_bank", "src": "*=0xC08000\n.db 1\n*=0x008000\n.db 2\n", "rom": "high"},
+        {"name": "fail_runs_off_last_bank", "src": "*=0x6FFFFE\n.dl 1, 2\n", "rom": None},
+        {"name": "first_expression", "src": ".db 0x12, 0x34\n", "rom": None},
         {"name": "defines", "src": "*=0x008000\n.dw DEFQ, shared_k\n", "rom": None, "defines": {"DEFQ": 0x1234, "shared_k": 2}},
     ]
 
@@ -172,14 +176,26 @@ def history_action(rng: random.Random) -> dict:
     if c < 0.56:
         return {"what": "include_ips", "src": f"*={addr:#x}\n.include_ips 'shared.ips', {rng.choice(['0x200', '0x1000', '0 - 0x100', '0'])}\n" + rng.choice(["", "lda.w nowhere_q\n"]),
                 "rom": None, "files": {"shared.ips": IPS_SHARED}}
-    if c < 0.62:
+    if c < 0.60:
+        # data that ends exactly with the last byte of the last bank of a mapped region, or runs into RAM's last byte
+        edge = rng.choice([("*=0x6FFFFE\n.dw 0x1234\n", None), ("*=0xCFFFFD\n.dl 0x123456\n", None), ("*=0x6FFFFF\n.db 1\n", "low"), ("*=0xFFFFFE\n.dw 1\n", "high"),
+                           ("*=0xFFFFFF\n.db 1\n", "high"), ("*=0x7DFFFF\n.db 1\n", "high"), ("*=0x008000\n@=0x7FFFFE\n.dw 1\n", None), ("*=0xCFFFFF\n.db 1\n", "low2"),
+                           (MAP_ODD + "*=0x8FFFFE\n.dw 1\n", None), (MAP_LO + "*=0x6FFFFE\n.dw 1\n", None)])
+        return {"what": "region_edge", "src": edge[0], "rom": edge[1]}
+    if c < 0.64:
+        # an expression that is abandoned half-way (an operator the evaluator does not know, a syntax error inside an expression); nothing else follows
+        frag = rng.choice([".if kq & 0x0F == 0 {\nnop\n}\n", ".if 0 - kq < 0 {\nrts\n}\n", ".if kq + 1 == 2 {\nnop\n}\n", ".if kq * 2 > 1 {\nnop\n} else {\nrts\n}\n",
+                           ".db 1 +\n", "lda #(1 + \n", ".db (1 + 2\n", "zq := 3 *\n", ".db 1 / 0\n", ".db 1 % 2\n", "lda #~\n", ".db - \n"])
+        # (without a *= line no later pass evaluates anything after the abandoned expression)
+        return {"what": "abandoned_expression", "src": (f"*={addr:#x}\n" if rng.random() < 0.4 else "") + "kq := 5\n" + frag, "rom": None}
+    if c < 0.69:
         bad = rng.choice(["lda.q 1\n", "!!!\n", ".ascii 'abc\n", "{\n", "/* open\n", "lda.w nowhere_q\n", ".dw nowhere_q\n", "nomac_q(1)\n", "nop #1\n",
                           "bra far_q\n.ascii '" + "x" * 200 + "'\nfar_q:\n", "*=0x708000\n.db 1\n", ".include 'nofile_q.s'\n", ".text 'no table'\n", "shared_m()\n"])
         return {"what": "failing", "src": f"*={addr:#x}\n" + COMMON.format(k=k, mk=mk) + "start:\n.db 1\n" + bad + ".db 2\n", "rom": rom if rom != "low2" else "low"}
-    if c < 0.75:
+    if c < 0.79:
         return {"what": "api", "via": "api", "fmt": rng.choice(["patch", "sfc"]), "src": f"*={addr:#x}\n" + COMMON.format(k=k, mk=mk) + body, "rom": rng.choice(["low", "high", "low2"]),
                 "copier": rng.random() < 0.5, "defines": {"DEFQ": rng.randrange(100)}}
-    if c < 0.85:
+    if c < 0.88:
         return {"what": "cli", "via": "cli", "src": f"*={addr:#x}\n" + COMMON.format(k=k, mk=mk) + body + rng.choice(["", "lda.w nowhere_q\n"]), "rom": rng.choice(["low", "high"]),
                 "defines": {"DEFQ": rng.randrange(100), "shared_k": 77} if rng.random() < 0.5 else None}
     return {"what": "names", "src": f"*={addr:#x}\n" + COMMON.format(k=k, mk=mk) + body + f"after_text:\nafter_blob:\nram_code:\nDEFQ := {k}\n.dl DEFQ\n", "rom": rom,
